@@ -267,7 +267,11 @@ def _parse_toml(cfg_buffer: typ.IO[str]) -> RawConfig:
         raw_cfg = {}
 
     for option, default_val in BOOL_OPTIONS.items():
-        raw_cfg[option] = raw_cfg.get(option, default_val)
+        val: OptionVal = raw_cfg.get(option, default_val)
+        if isinstance(val, str):
+            # NOTE: a string such as "false" must not count as true (same spellings as in .cfg files)
+            val = val.strip().lower() in ("yes", "true", "1", "on")
+        raw_cfg[option] = val
 
     _set_raw_config_defaults(raw_cfg)
 
